@@ -4,13 +4,13 @@ set -e
 cd "$(dirname "$0")"
 export GOFLAGS=-mod=mod GOPROXY=off GOSUMDB=off GOTOOLCHAIN=local CGO_ENABLED=0
 mkdir -p .build evidence
-cp /repo/go.sum harness/go.sum
 # fact extractor (no casket import with no stream tag) -> Generated/*.lean -> theorems + driver
-(cd harness && go build -o ../.build/vharness-facts ./cmd/vharness)
+cp /repo/go.sum .build/go_facts.sum && sed 's#=> /repo#=> /repo#' harness/go.mod > .build/go_facts.mod
+(cd harness && go build -modfile ../.build/go_facts.mod -o ../.build/vharness-facts ./cmd/vharness)
 .build/vharness-facts facts -repo /repo -out lean/Casket/Generated
 (cd lean && lake build)
 # warm the Go build cache for every property's harness
-for id in $(python3 -c 'import json;print(" ".join(sorted(json.load(open("checks.json"))["checks"])))'); do
+for id in $(ls checks | sed 's/\.json$//'); do
   python3 - "$id" <<'PY'
 import sys, importlib.machinery, importlib.util, os
 loader = importlib.machinery.SourceFileLoader("check", os.path.join(os.getcwd(), "check"))
